@@ -7,6 +7,11 @@ props = [json.loads(l) for l in open(os.path.join(V, "properties.jsonl"))]
 
 # property id -> (category, technique, level text, level note) ; absent = not claimed (reason in NOT_APPLICABLE)
 CLAIMS = {
+ "C15": ("exploration",
+         "runtime monitoring: location oracle from an independent tokenizer's form and token extents over fault programs (8 faults x 7 contexts) under random layouts, plus syntax errors with a known offending token",
+         "fault programs are rendered with random multi-line layout, indentation, comments and 0-30 preceding forms and evaluated as one text by the real interpreter; the independent tokenizer gives the extent of every top-level form and of the uniquely named offending token; the reported location must be present and lie in the failing form, at the offending identifier/operator for unbound reads and non-procedure operators written in the failing form; syntax errors with a location must point at or before the offending token.",
+         "both column conventions are accepted (span [start, end+1]); a fault whose offending token sits in a procedure defined by an earlier form may be reported at the token or anywhere in the failing form"),
+
  "C16": ("exploration",
          "runtime monitoring: print/read-back round trip on the real printer and reader over random value trees; structural + exactness oracle, format rules, injectivity over the run",
          "random value trees built by evaluation (the C09 operand grid, results of arithmetic, literals and computed values of every binary32 class, characters, symbols, proper/improper lists, vectors) are printed by the code display uses and the text is read back as a quoted datum by the real reader; the read-back value must be structurally equal with the same exactness (reals bit-equal), the text must use single spaces and a dotted tail exactly for improper lists, and over the whole run equal texts must come from equal values.",
